@@ -426,3 +426,53 @@ mutant("M84b-work-dir-branches-builder", ["C19"], "SPEC-NEUTRAL-1", (OPS, "    n
 benign("B-new-creation-forwarding-spec", ["C19", "C16"], (CREATION, "def zeros(shape, *, dtype=None, device=None, chunks=\"auto\", spec=None) -> \"Array\":", "def twos(shape, *, dtype=None, device=None, chunks=\"auto\", spec=None) -> \"Array\":\n    return full(shape, 2, dtype=dtype, device=device, chunks=chunks, spec=spec)\n\n\ndef zeros(shape, *, dtype=None, device=None, chunks=\"auto\", spec=None) -> \"Array\":"))
 benign("B-no-lru-cache-spec-from-config", ["C19", "C18"], (SPECPY, "@lru_cache  # ensure arrays have the same Spec object for a given config\n", ""))
 benign("B-eq-reordered", ["C18"], (SPECPY, "                self.work_dir == other.work_dir\n                and self.intermediate_store == other.intermediate_store", "                self.intermediate_store == other.intermediate_store\n                and self.work_dir == other.work_dir"))
+
+# ---------------------------------------------------------------- C02 / C15 (fusion)
+mutant(
+    "M8-no-requested-array-guard",
+    ["C02"],
+    "FUSE-GUARD-1",
+    (OPT, "    if len(array_names_intersect) > 0:\n        logger.debug(\n            \"can't fuse %s since predecessor ops produce one or more arrays being computed %s\",\n            name,\n            array_names_intersect,\n        )\n        return False\n", "    if len(array_names_intersect) > 0:\n        logger.debug(\n            \"can't fuse %s since predecessor ops produce one or more arrays being computed %s\",\n            name,\n            array_names_intersect,\n        )\n"),
+)
+mutant(
+    "M9-always-fuse-before-guards",
+    ["C02"],
+    "FUSE-GUARD-1",
+    (OPT, "    nodes = dict(dag.nodes(data=True))\n\n    # if node itself can't be fused then there is nothing to fuse\n    if not is_fusable_with_predecessors(nodes[name]):", "    nodes = dict(dag.nodes(data=True))\n    if always_fuse is not None and name in always_fuse:\n        return True\n\n    # if node itself can't be fused then there is nothing to fuse\n    if not is_fusable_with_predecessors(nodes[name]):"),
+)
+mutant("M9b-multi-output-ge-1", ["C02"], "FUSE-GUARD-1", (OPT, "        len(list(successors_unordered(dag, pre))) > 1\n", "        len(list(successors_unordered(dag, pre))) > 2\n"))
+mutant("M9c-requested-guard-first-pred-only", ["C02"], "FUSE-GUARD-1", (OPT, "        array_name for _, array_name, _ in predecessor_ops_and_arrays(dag, name)\n    )", "        array_name for _, array_name, can_fuse in predecessor_ops_and_arrays(dag, name) if can_fuse and False\n    )"))
+mutant("M10-flag-drops-single-consumer", ["C02"], "FUSE-GUARD-1", (OPT, "            and node_dict[\"primitive_op\"].fusable_with_successors\n            and out_degree_unique(dag, input) == 1\n", "            and node_dict[\"primitive_op\"].fusable_with_successors\n"))
+mutant("M11-flag-or", ["C02"], "FUSE-GUARD-1", (OPT, "            and out_degree_unique(dag, input) == 1\n", "            or out_degree_unique(dag, input) == 1\n"))
+mutant("M11b-flag-degree-of-op", ["C02"], "FUSE-GUARD-1", (OPT, "            and out_degree_unique(dag, input) == 1\n", "            and out_degree_unique(dag, pre) == 1\n"))
+mutant("M11c-unflagged-pred-passed", ["C02"], "FUSE-GUARD-1", (OPT, "    predecessor_primitive_ops = [\n        nodes[pre][\"primitive_op\"] if can_fuse else None\n        for pre, _, can_fuse in predecessor_ops_and_arrays(dag, name)\n    ]\n\n    fused_primitive_op", "    predecessor_primitive_ops = [\n        nodes[pre].get(\"primitive_op\")\n        for pre, _, can_fuse in predecessor_ops_and_arrays(dag, name)\n    ]\n\n    fused_primitive_op"))
+mutant("M12-legacy-no-requested-test", ["C02"], "FUSE-GUARD-2", (OPT, "        if op2_input in array_names:\n            return False\n", ""))
+mutant("M12b-legacy-shared-input", ["C02"], "FUSE-GUARD-2", (OPT, "        if dag.out_degree(op2_input) != 1:\n            return False\n", ""))
+mutant("M13-no-edge-inheritance", ["C02", "C07"], "FUSE-REWIRE-1", (OPT, "            for pre_input in predecessors_unordered(dag, pre):\n                fused_dag.add_edge(pre_input, name)\n", ""))
+mutant("M13b-remove-unflagged", ["C02"], "FUSE-REWIRE-1", (OPT, "        if can_fuse:\n            # check if already removed for repeated arguments", "        if True:\n            # check if already removed for repeated arguments"))
+mutant("M13c-inherit-from-mutated-copy", ["C02"], "FUSE-REWIRE-1", (OPT, "            for pre_input in predecessors_unordered(dag, pre):\n                fused_dag.add_edge(pre_input, name)", "            for pre_input in predecessors_unordered(fused_dag, pre):\n                fused_dag.add_edge(pre_input, name)"))
+mutant("M14-fuse-write-proxies-from-pred", ["C02", "C05"], "FUSE-PROV-1", (PBW, "    write_proxies = pipeline2.config.writes_map\n", "    write_proxies = pipeline1.config.writes_map\n"))
+mutant("M15-fuse-multiple-mappable-from-pred", ["C02", "C13"], "FUSE-PROV-1", (PBW, "        primitive_op.pipeline.mappable,\n        spec,\n    )", "        predecessor_primitive_ops[0].pipeline.mappable,\n        spec,\n    )"), also=("COUNT-1",))
+mutant("M16-no-pred-reads", ["C02"], "FUSE-PROV-1", (PBW, "    for bws in predecessor_bw_specs:\n        read_proxies.update(bws.reads_map)\n", ""))
+mutant("M16b-target-from-pred", ["C02"], "FUSE-PROV-1", (PBW, "    target_array = primitive_op.target_array\n    projected_mem = max(\n        primitive_op.projected_mem,", "    target_array = predecessor_primitive_ops[0].target_array\n    projected_mem = max(\n        primitive_op.projected_mem,"))
+mutant("M16c-source-names-successor-only", ["C02"], "FUSE-PROV-1", (PBW, "        else:\n            source_array_names.extend(p.source_array_names)", "        else:\n            source_array_names.append(primitive_op.source_array_names[i])"))
+mutant("M16d-function-dict-keyed-differently", ["C02", "C15"], "FUSE-PROV-1", (PBW, "            predecessor_functions_dict[name] = bws.function", "            predecessor_functions_dict[id(bws)] = bws.function"))
+mutant("M71-iterator-branch-materialised", ["C15", "C03", "C02"], "NEST-LAZY-1", (PBW, "    else:\n        return (apply_blockwise_func(a, functions_dict) for a in arg)", "    else:\n        return [apply_blockwise_func(a, functions_dict) for a in arg]"))
+mutant("M71b-map-nested-iterator-to-list", ["C15", "C03"], "NEST-LAZY-1", (PBW, "        return map(lambda item: _map_nested_impl(func, item), seq)", "        return list(map(lambda item: _map_nested_impl(func, item), seq))"))
+mutant("M71c-key-func-iterator-to-list", ["C15", "C03"], "NEST-LAZY-1", (PBW, "    else:\n        return (\n            FunctionArgs(\n                *_apply_blockwise_key_func_to_chunk_key(\n                    a, back_key_functions_dict\n                ).args,\n                output_name=a.name,\n            )\n            for a in arg\n        )", "    else:\n        return [\n            FunctionArgs(\n                *_apply_blockwise_key_func_to_chunk_key(\n                    a, back_key_functions_dict\n                ).args,\n                output_name=a.name,\n            )\n            for a in arg\n        ]"))
+mutant("M28-partial-reduce-materialises", ["C03"], "NEST-LAZY-1", (OPS, "    result = None\n    for array in arrays:\n        if initial_func is not None:", "    arrays = list(arrays)\n    result = None\n    for array in arrays:\n        if initial_func is not None:"))
+mutant("M29-partial-reduce-key-no-iter", ["C03"], "NEST-LAZY-1", (OPS, "            iter([ChunkKey(x.name, tuple(p)) for p in product(*in_keys)]),", "            [ChunkKey(x.name, tuple(p)) for p in product(*in_keys)],"))
+mutant("M72-key-name-from-first", ["C15", "C02"], "NEST-DISPATCH-1", (PBW, "                output_name=a.name,\n            )\n            for a in arg\n        ]", "                output_name=arg[0].name,\n            )\n            for a in arg\n        ]"))
+mutant("M72b-map-nested-name-lost", ["C15"], "NEST-DISPATCH-1", (PBW, "            output_name=seq.output_name,\n        )\n    else:\n        return func(seq)", "            output_name=\"out\",\n        )\n    else:\n        return func(seq)"))
+mutant("M72c-fused-func-skips-first-arg", ["C15", "C02"], "NEST-DISPATCH-1", (PBW, "    def fused_func_single(*args: Any) -> T:\n        func_args = [apply_blockwise_func(a, predecessor_functions_dict) for a in args]", "    def fused_func_single(*args: Any) -> T:\n        func_args = [apply_blockwise_func(a, predecessor_functions_dict) for a in args[1:]]"))
+mutant("M72d-generator-ness-lost", ["C15", "C02"], "NEST-DISPATCH-1", (PBW, "        fused_func_generator\n        if inspect.isgeneratorfunction(function)\n        else fused_func_single", "        fused_func_single"))
+mutant("M72e-passthrough-keyed-by-other-name", ["C15", "C02"], "NEST-DISPATCH-1", (PBW, "        if arg.output_name not in functions_dict:\n            return arg.args[0] if len(arg.args) == 1 else list(arg.args)\n        return functions_dict[arg.output_name](*arg.args)", "        if arg.output_name not in functions_dict:\n            return arg.args[0] if len(arg.args) == 1 else list(arg.args)\n        return functions_dict[arg.args[0].name if hasattr(arg.args[0], 'name') else arg.output_name](*arg.args)"))
+benign("B-drop-fusable-conjunct", ["C02"], (OPT, "            and node_dict[\"primitive_op\"].fusable_with_successors\n            and out_degree_unique(dag, input) == 1\n", "            and out_degree_unique(dag, input) == 1\n"))
+benign(
+    "B-reorder-guards",
+    ["C02"],
+    (OPT, "    # if node is in never_fuse or always_fuse list then it overrides logic below\n    if never_fuse is not None and name in never_fuse:\n        logger.debug(\"can't fuse %s since it is in 'never_fuse'\", name)\n        return False\n", ""),
+    (OPT, "    # if no predecessor ops can be fused then there is nothing to fuse\n    # (this may be because predecessor ops produce arrays with multiple dependents)", "    if never_fuse is not None and name in never_fuse:\n        return False\n    # if no predecessor ops can be fused then there is nothing to fuse\n    # (this may be because predecessor ops produce arrays with multiple dependents)"),
+)
+benign("B-multi-output-ge-2", ["C02"], (OPT, "        len(list(successors_unordered(dag, pre))) > 1\n", "        len(list(successors_unordered(dag, pre))) >= 2\n"))
+benign("B-generator-for-iter-tuple", ["C03", "C15"], (OPS, "            iter(tuple(ChunkKey(x.name, cp.chunk_coords) for cp in indexer)),", "            (ChunkKey(x.name, cp.chunk_coords) for cp in indexer),"))
